@@ -341,11 +341,16 @@ pub struct Layout {
     pub commit_every: u64,
     /// flush (segment cut without commit) with probability 1/flush_den per batch (0 = never)
     pub flush_den: u64,
+    /// largest add_commands batch (0 = 40); with flush_den = 1 or commit_every = 1 this is the
+    /// segment length (1 = every command its own segment, as a replica that authored them has)
+    pub batch_max: u64,
+    /// deliver abstract node by abstract node and cut a segment at every node boundary
+    pub node_cut: bool,
 }
 
 impl Layout {
     pub fn parse(v: Option<&Value>, dflt_seed: u64) -> Self {
-        let mut l = Layout { seed: dflt_seed, frag: 0, commit_every: 0, flush_den: 0 };
+        let mut l = Layout { seed: dflt_seed, frag: 0, commit_every: 0, flush_den: 0, batch_max: 0, node_cut: false };
         if let Some(v) = v {
             if let Some(x) = v.get("seed").and_then(Value::as_u64) {
                 l.seed = x;
@@ -358,6 +363,12 @@ impl Layout {
             }
             if let Some(x) = v.get("flush_den").and_then(Value::as_u64) {
                 l.flush_den = x;
+            }
+            if let Some(x) = v.get("batch_max").and_then(Value::as_u64) {
+                l.batch_max = x;
+            }
+            if let Some(x) = v.get("node_cut").and_then(Value::as_bool) {
+                l.node_cut = x;
             }
         }
         l
@@ -392,6 +403,9 @@ impl Replica {
 
     /// A seeded topological delivery order of `want` (causally closed set of real indices).
     pub fn delivery_order(exp: &Expanded, want: &BTreeSet<usize>, lay: &Layout) -> Vec<usize> {
+        if lay.node_cut {
+            return want.iter().copied().collect(); // expansion order: node by node, elements ascending
+        }
         let mut rng = Rng::new(lay.seed ^ 0x11);
         let mut done: BTreeSet<usize> = BTreeSet::new();
         let mut children: BTreeMap<usize, Vec<usize>> = BTreeMap::new();
@@ -451,7 +465,13 @@ impl Replica {
         let mut since_commit = 0u64;
         let mut pos = 0;
         while pos < order.len() {
-            let bl = (rng.range(1, 40) as usize).min(order.len() - pos);
+            let bmax = if lay.batch_max == 0 { 40 } else { lay.batch_max };
+            let mut bl = (rng.range(1, bmax) as usize).min(order.len() - pos);
+            if lay.node_cut {
+                // never cross an abstract-node boundary inside a batch
+                let node = exp.cmds[order[pos]].node;
+                bl = order[pos..pos + bl].iter().take_while(|&&i| exp.cmds[i].node == node).count();
+            }
             let batch: Vec<VCmd> = order[pos..pos + bl].iter().map(|&i| exp.cmds[i].cmd.clone()).collect();
             self.client
                 .add_commands(&mut trx, &mut Null, &batch, &mut self.bufs, MemSpill::new)
@@ -459,7 +479,8 @@ impl Replica {
             pending.extend_from_slice(&order[pos..pos + bl]);
             pos += bl;
             since_commit += bl as u64;
-            if lay.flush_den > 0 && rng.chance(1, lay.flush_den) {
+            let node_end = lay.node_cut && (pos >= order.len() || exp.cmds[order[pos]].node != exp.cmds[order[pos - 1]].node);
+            if node_end || (lay.flush_den > 0 && rng.chance(1, lay.flush_den)) {
                 let st = self.client.provider().get_storage(self.graph).map_err(|e| format!("get_storage: {e}"))?;
                 trx.flush(st).map_err(|e| format!("flush: {}", err_class(&e)))?;
             }
